@@ -1,8 +1,32 @@
-(** Property C20 — theorems only. *)
+(** Property C20 — theorems only (TM-string half; the header half is added below when built). *)
 From Coq Require Import List Bool ZArith NArith QArith.
-From DV Require Import Common.Res Common.Str Common.F64 Common.PyNum Time.Model Time.Proofs.
+From DV Require Import Common.Res Common.Str Common.F64 Common.PyNum Time.Model Time.Spec Time.Proofs.
 Import ListNotations.
+Local Open Scope nat_scope.
 
 (** Both modules implement the same conversion, for every string (valid or not). *)
 Theorem C20_tm_same : forall s, dcm_time_to_sec s = tm_to_seconds s.
 Proof. exact same_function. Qed.
+
+(** HH  ->  hh*3600 *)
+Theorem C20_tm_h : forall hh, hh < 100 ->
+  dcm_time_to_sec (tm_h hh) = Ok (FFin (f_of_Z (Z.of_nat hh * 3600))).
+Proof. exact tm_h_ok. Qed.
+
+(** HHMM / HH:MM  ->  hh*3600 + mm*60 *)
+Theorem C20_tm_hm : forall colons hh mm, hh < 100 -> mm < 100 ->
+  dcm_time_to_sec (tm_hm colons hh mm) = Ok (FFin (f_of_Z (whole_secs hh mm))).
+Proof. exact tm_hm_ok. Qed.
+
+(** HHMMSS[.F+] / HH:MM:SS[.F+]  ->  hh*3600 + mm*60 + ss.ffffff  (any number of fraction digits) *)
+Theorem C20_tm_hms : forall colons hh mm ss frac,
+  hh < 100 -> mm < 100 -> ss < 100 -> all_digits frac = true ->
+  dcm_time_to_sec (tm_hms colons hh mm ss frac) = Ok (tm_value hh mm ss frac).
+Proof. exact tm_hms_ok. Qed.
+
+(** non-vacuity: "13:05:59.250" denotes 47159.25 exactly *)
+Example C20_tm_example :
+  tm_hms true 13 5 59 [50; 53; 48]%N = [49; 51; 58; 48; 53; 58; 53; 57; 46; 50; 53; 48]%N /\
+  all_digits [50; 53; 48]%N = true /\
+  (match tm_value 13 5 59 [50; 53; 48]%N with FFin q => Qeq_bool q (4715925 # 100) | _ => false end) = true.
+Proof. vm_compute. repeat split. Qed.
